@@ -68,6 +68,11 @@ MUTANTS = [
     ("C19-sort-key", "C19", "compiler.py", "labels.sort(key=lambda item: (item[1], item[0]))", "labels.sort(key=lambda item: (item[0], item[1]))", 1),
     ("C19-field-width", "C19", "compiler.py", ".rjust(6, \"0\")", ".rjust(5, \"0\")", 1),
     ("C19-local-listed", "C19", "compiler.py", "            if name.startswith(\".internal\"):", "            if name.startswith(\".\"):", 1),
+    ("C16-destructive-hoist", "C16", "insns.py", "                    inner = type(token)(token.ctx_start, rhs.lhs.ctx_end, token.lhs, rhs.lhs)\n                    return operators.call(token.ctx_start, token.ctx_end, inner, rhs.rhs)", "                    token.rhs = rhs.lhs\n                    return operators.call(token.ctx_start, token.ctx_end, token, rhs.rhs)", 1),
+    ("C16-repeat-context", "C16", "metacommands.py", 'compile_block({**state, "context": "repeat"}, body, addr)', 'compile_block({**state, "context": "repeat"}, body, state["emit_address"])', 1),
+    ("C16-end-keeps-going", "C16", "compiler.py", "        except CompilerStopIteration:\n            pass\n\n        return data", "        except CompilerStopIteration:\n            data += b\"\\x00\"\n\n        return data", 1),
+    ("C16-once-off-by-one", "C16", "metacommands.py", 'if state["compiler"].times_file_compiled[state["filename"]] > 1:', 'if state["compiler"].times_file_compiled[state["filename"]] > 2:', 1),
+    ("C16-new-token-cache", "C16", "types.py", "    def resolve(self, state):\n        return state[\"emit_address\"]", "    def resolve(self, state):\n        if not hasattr(self, \"cached\"):\n            self.cached = state[\"emit_address\"]\n        return self.cached", 1),
     # negative controls: semantically neutral edits, every check must stay green
     ("NEG-rename-local", "C06", "metacommand_impl.py", "    value = wait(arg_token.resolve(state))\n\n    if not isinstance(value, int):", "    value = wait(arg_token.resolve(state))\n    _unused = 1\n\n    if not isinstance(value, int):", 0),
     ("NEG-candidate-order", "C03", "types.py", "            state[\"local_symbol_prefix\"] + self.name,\n            state[\"internal_symbol_prefix\"] + self.name\n", "            state[\"internal_symbol_prefix\"] + self.name,\n            state[\"local_symbol_prefix\"] + self.name\n", 0),
